@@ -567,30 +567,44 @@ Proof.
     + apply (sync_scoped s0 i s _ (upd_regl _)); [intro t; split; reflexivity | exact Hinv].
 Qed.
 
-Lemma apply_events_get E : forall c i,
-  sget i (apply_events E c) = match last_ev i E with Some r => Some r | None => sget i c end.
+Lemma apply_events_get ck E : key_inj ck -> forall c i,
+  sget (ck i) (apply_events ck E c) = match last_ev i E with Some r => Some r | None => sget (ck i) c end.
 Proof.
-  unfold apply_events, last_ev. induction E as [|[k v] t IH]; intros c i; simpl; [reflexivity|].
+  intro Hk. unfold apply_events, last_ev. induction E as [|[k v] t IH]; intros c i; simpl; [reflexivity|].
   rewrite IH. destruct (alookup_last N.eqb i t) as [r|]; [reflexivity|].
   destruct (eqb_cases i k) as [H|H]; rewrite H.
   - apply N.eqb_eq in H. subst k. apply sget_sset_same.
-  - apply sget_sset_other. exact H.
+  - apply sget_sset_other. apply N.eqb_neq. intro E. apply Hk in E. apply N.eqb_neq in H. congruence.
 Qed.
+
+Lemma rekey_get ck : key_inj ck -> forall m i, sget (ck i) (rekey ck m) = sget i m.
+Proof.
+  intro Hk. unfold sget, rekey. induction m as [|[k v] t IH]; intro i; simpl; [reflexivity|].
+  destruct (eqb_cases i k) as [H|H]; rewrite H.
+  - apply N.eqb_eq in H. subst k. rewrite N.eqb_refl. reflexivity.
+  - assert (E : (ck i =? ck k)%N = false).
+    { apply N.eqb_neq. intro E. apply Hk in E. apply N.eqb_neq in H. congruence. }
+    rewrite E. apply IH.
+Qed.
+
+(** the case-folding key is not injective *)
+Lemma fold_key_not_inj : ~ key_inj fold_key.
+Proof. intro H. specialize (H 28%N 29%N eq_refl). discriminate H. Qed.
 
 (** * Part 3: over all histories *)
 
 (** the cache never disagrees with the stored record (as long as events of failed transactions are not applied) *)
-Definition cache_ok (s : state) : Prop := forall i r, sget i (cache s) = Some r -> sget i (svcs s) = Some r.
+Definition cache_ok (f : cfg) (s : state) : Prop := forall i r, sget (d_cache_key f i) (cache s) = Some r -> sget i (svcs s) = Some r.
 Definition committed (s : state) : Prop := evs s = [] /\ slog s = [].
 
 Lemma commit_keeps f s p :
-  d_cache_failed_events f = false -> cache_ok s -> committed s ->
+  d_cache_failed_events f = false -> key_inj (d_cache_key f) -> cache_ok f s -> committed s ->
   let '(ok, w) := run p None s in
-  let s' := if ok then clear_tx (set_cache (apply_events (evs w) (cache w)) w)
-            else if d_cache_failed_events f then set_cache (apply_events (evs w) (cache s)) s else s in
-  cache_ok s' /\ committed s'.
+  let s' := if ok then clear_tx (set_cache (apply_events (d_cache_key f) (evs w) (cache w)) w)
+            else if d_cache_failed_events f then set_cache (apply_events (d_cache_key f) (evs w) (cache s)) s else s in
+  cache_ok f s' /\ committed s'.
 Proof.
-  intros Hf Hc [He Hl].
+  intros Hf Hk Hc [He Hl].
   pose proof (run_sync s p None s) as HS. pose proof (run_cache p None s) as HC.
   destruct (run p None s) as [ok w]. simpl in HS, HC.
   destruct ok.
@@ -598,7 +612,7 @@ Proof.
     assert (Hinit : sync_inv s None s).
     { intros i _. unfold synced. rewrite He. reflexivity. }
     specialize (HS Hinit eq_refl).
-    intros i r. ssimpl. rewrite apply_events_get, HC.
+    intros i r. ssimpl. rewrite (apply_events_get _ _ Hk), HC.
     specialize (HS i). unfold synced in HS.
     destruct (last_ev i (evs w)) as [x|].
     + intro H. inversion H; subst x. apply HS. discriminate.
@@ -607,43 +621,43 @@ Proof.
 Qed.
 
 Lemma step_keeps f s o :
-  d_cache_failed_events f = false -> cache_ok s -> committed s ->
-  cache_ok (r_state (step f s o)) /\ committed (r_state (step f s o)).
+  d_cache_failed_events f = false -> key_inj (d_cache_key f) -> cache_ok f s -> committed s ->
+  cache_ok f (r_state (step f s o)) /\ committed (r_state (step f s o)).
 Proof.
-  intros Hf Hc Hm.
+  intros Hf Hk Hc Hm.
   assert (Hrun : forall p,
-             cache_ok (r_state (let '(ok, w) := run p None s in
-                                if ok then {| r_ok := true; r_out := 9; r_log := slog w; r_state := clear_tx (set_cache (apply_events (evs w) (cache w)) w) |}
+             cache_ok f (r_state (let '(ok, w) := run p None s in
+                                if ok then {| r_ok := true; r_out := 9; r_log := slog w; r_state := clear_tx (set_cache (apply_events (d_cache_key f) (evs w) (cache w)) w) |}
                                 else {| r_ok := false; r_out := 9; r_log := [];
-                                        r_state := if d_cache_failed_events f then set_cache (apply_events (evs w) (cache s)) s else s |})) /\
+                                        r_state := if d_cache_failed_events f then set_cache (apply_events (d_cache_key f) (evs w) (cache s)) s else s |})) /\
              committed (r_state (let '(ok, w) := run p None s in
-                                if ok then {| r_ok := true; r_out := 9; r_log := slog w; r_state := clear_tx (set_cache (apply_events (evs w) (cache w)) w) |}
+                                if ok then {| r_ok := true; r_out := 9; r_log := slog w; r_state := clear_tx (set_cache (apply_events (d_cache_key f) (evs w) (cache w)) w) |}
                                 else {| r_ok := false; r_out := 9; r_log := [];
-                                        r_state := if d_cache_failed_events f then set_cache (apply_events (evs w) (cache s)) s else s |}))).
-  { intro p. pose proof (commit_keeps f s p Hf Hc Hm) as H. destruct (run p None s) as [ok w]. destruct ok; exact H. }
+                                        r_state := if d_cache_failed_events f then set_cache (apply_events (d_cache_key f) (evs w) (cache s)) s else s |}))).
+  { intro p. pose proof (commit_keeps f s p Hf Hk Hc Hm) as H. destruct (run p None s) as [ok w]. destruct ok; exact H. }
   destruct o; try (apply Hrun).
   - (* request *) simpl. split; assumption.
   - (* restart *) simpl. destruct Hm as [He Hl]. split; [|split; assumption].
-    destruct (d_cache_not_reloaded f); intros i r H; ssimpl; [discriminate H | exact H].
+    destruct (d_cache_not_reloaded f); intros i r H; ssimpl; [discriminate H | rewrite (rekey_get _ Hk) in H; exact H].
 Qed.
 
 Lemma run_ops_keeps f h : forall s,
-  d_cache_failed_events f = false -> cache_ok s -> committed s -> cache_ok (run_ops f s h) /\ committed (run_ops f s h).
+  d_cache_failed_events f = false -> key_inj (d_cache_key f) -> cache_ok f s -> committed s -> cache_ok f (run_ops f s h) /\ committed (run_ops f s h).
 Proof.
-  induction h as [|o t IH]; intros s Hf Hc Hm; simpl; [split; assumption|].
-  destruct (step_keeps f s o Hf Hc Hm) as [A B]. apply IH; assumption.
+  induction h as [|o t IH]; intros s Hf Hk Hc Hm; simpl; [split; assumption|].
+  destruct (step_keeps f s o Hf Hk Hc Hm) as [A B]. apply IH; assumption.
 Qed.
 
-Lemma st0_ok : cache_ok st0 /\ committed st0.
+Lemma st0_ok f : cache_ok f st0 /\ committed st0.
 Proof. split; [intros i r H; discriminate H | split; reflexivity]. Qed.
 
 (** the gate decides on the stored records *)
 Lemma gate_ext v v' src dst : v src = v' src -> v dst = v' dst -> gate v src dst = gate v' src dst.
 Proof. intros A B. unfold gate, src_ok, dst_ok. rewrite A, B. reflexivity. Qed.
 
-Lemma view_ok s i : cache_ok s -> view (cache s) (svcs s) i = sget i (svcs s).
+Lemma view_ok f s i : cache_ok f s -> view (d_cache_key f) (cache s) (svcs s) i = sget i (svcs s).
 Proof.
-  intro H. unfold view. destruct (sget i (cache s)) as [r|] eqn:E; [|reflexivity].
+  intro H. unfold view. destruct (sget (d_cache_key f i) (cache s)) as [r|] eqn:E; [|reflexivity].
   symmetry. apply H. exact E.
 Qed.
 
@@ -655,12 +669,12 @@ Proof.
 Qed.
 
 Lemma gate_theorem f h src dst :
-  d_cache_failed_events f = false ->
-  let s := run_ops f st0 h in gate_sound (svcs s) src dst (ibtp_outcome s src dst) = true.
+  d_cache_failed_events f = false -> key_inj (d_cache_key f) ->
+  let s := run_ops f st0 h in gate_sound (svcs s) src dst (ibtp_outcome f s src dst) = true.
 Proof.
-  intros Hf s. destruct (run_ops_keeps f h st0 Hf (proj1 st0_ok) (proj2 st0_ok)) as [Hc _]. fold s in Hc.
+  intros Hf Hk s. destruct (run_ops_keeps f h st0 Hf Hk (proj1 (st0_ok f)) (proj2 (st0_ok f))) as [Hc _]. fold s in Hc.
   unfold ibtp_outcome. destruct (negb (proof_ok s src)); [reflexivity|].
-  rewrite (gate_ext _ (fun i => sget i (svcs s)) src dst (view_ok s src Hc) (view_ok s dst Hc)).
+  rewrite (gate_ext _ (fun i => sget i (svcs s)) src dst (view_ok f s src Hc) (view_ok f s dst Hc)).
   apply gate_sound_gate.
 Qed.
 
@@ -672,9 +686,9 @@ Lemma step_forbidden f s o : forb_rel s (r_state (step f s o)).
 Proof.
   assert (Hrun : forall p,
              forb_rel s (r_state (let '(ok, w) := run p None s in
-                                  if ok then {| r_ok := true; r_out := 9; r_log := slog w; r_state := clear_tx (set_cache (apply_events (evs w) (cache w)) w) |}
+                                  if ok then {| r_ok := true; r_out := 9; r_log := slog w; r_state := clear_tx (set_cache (apply_events (d_cache_key f) (evs w) (cache w)) w) |}
                                   else {| r_ok := false; r_out := 9; r_log := [];
-                                          r_state := if d_cache_failed_events f then set_cache (apply_events (evs w) (cache s)) s else s |}))).
+                                          r_state := if d_cache_failed_events f then set_cache (apply_events (d_cache_key f) (evs w) (cache s)) s else s |}))).
   { intro p. pose proof (run_forbidden p None s) as H. destruct (run p None s) as [ok w]. simpl in H.
     destruct ok; ssimpl.
     - apply forb_rel_tx. exact H.
@@ -693,14 +707,14 @@ Qed.
 
 (** a logged-out service is never let through as a source (flags off) *)
 Lemma forbidden_source_refused f h src dst r :
-  d_cache_failed_events f = false ->
+  d_cache_failed_events f = false -> key_inj (d_cache_key f) ->
   let s := run_ops f st0 h in
   sget src (svcs s) = Some r -> sv_status r = St_Forbidden ->
-  ibtp_outcome s src dst = ORejSrc \/ ibtp_outcome s src dst = OProof.
+  ibtp_outcome f s src dst = ORejSrc \/ ibtp_outcome f s src dst = OProof.
 Proof.
-  intros Hf s Hr Hst. destruct (run_ops_keeps f h st0 Hf (proj1 st0_ok) (proj2 st0_ok)) as [Hc _]. fold s in Hc.
+  intros Hf Hk s Hr Hst. destruct (run_ops_keeps f h st0 Hf Hk (proj1 (st0_ok f)) (proj2 (st0_ok f))) as [Hc _]. fold s in Hc.
   unfold ibtp_outcome. destruct (negb (proof_ok s src)); [right; reflexivity|]. left.
-  unfold gate, src_ok. rewrite (view_ok s src Hc), Hr. unfold svc_avail. rewrite Hst. reflexivity.
+  unfold gate, src_ok. rewrite (view_ok f s src Hc), Hr. unfold svc_avail. rewrite Hst. reflexivity.
 Qed.
 
 (** ** every status change of a step is logged, every logged change is a firing of the generated table;
@@ -716,9 +730,9 @@ Proof.
   { intros s' A B C. split; [constructor|]. split; [|split]; intro x; left; rewrite ?A, ?B, ?C; reflexivity. }
   assert (Hrun : forall p,
              let r := (let '(ok, w) := run p None s in
-                       if ok then {| r_ok := true; r_out := 9; r_log := slog w; r_state := clear_tx (set_cache (apply_events (evs w) (cache w)) w) |}
+                       if ok then {| r_ok := true; r_out := 9; r_log := slog w; r_state := clear_tx (set_cache (apply_events (d_cache_key f) (evs w) (cache w)) w) |}
                        else {| r_ok := false; r_out := 9; r_log := [];
-                               r_state := if d_cache_failed_events f then set_cache (apply_events (evs w) (cache s)) s else s |}) in
+                               r_state := if d_cache_failed_events f then set_cache (apply_events (d_cache_key f) (evs w) (cache s)) s else s |}) in
              Forall entry_ok (r_log r) /\ chain_logged (r_log r) s (r_state r) /\ svc_logged (r_log r) s (r_state r) /\ role_logged (r_log r) s (r_state r)).
   { intro p. pose proof (run_logged p None s) as H. destruct (run p None s) as [ok w]. simpl in H.
     destruct ok; ssimpl.
@@ -871,15 +885,15 @@ Proof. vm_compute. reflexivity. Qed.
 
 (** not reloading the cache at start is harmless for the property on its own: a miss falls back to the store *)
 Lemma no_reload_harmless f h src dst :
-  d_cache_failed_events f = false ->
-  let s := run_ops f st0 h in gate_sound (svcs s) src dst (ibtp_outcome s src dst) = true.
+  d_cache_failed_events f = false -> key_inj (d_cache_key f) ->
+  let s := run_ops f st0 h in gate_sound (svcs s) src dst (ibtp_outcome f s src dst) = true.
 Proof. exact (gate_theorem f h src dst). Qed.
 
 (** ... but together with a stale entry a restarted node and a running node answer differently *)
 Lemma restart_divergence :
   let f := cfg_of_bits true true false in
   let h := firstn 17 h_stale_cache in
-  ibtp_outcome (run_ops f st0 h) 10 20 <> ibtp_outcome (run_ops f st0 (h ++ [ORestart])) 10 20.
+  ibtp_outcome f (run_ops f st0 h) 10 20 <> ibtp_outcome f (run_ops f st0 (h ++ [ORestart])) 10 20.
 Proof. vm_compute. discriminate. Qed.
 
 (** non-vacuity: requests are accepted, refused at the source, and recorded as begin-failure *)
@@ -970,23 +984,63 @@ Qed.
     the request is decided on the records stored at that very position (the proof stage, which may refuse it
     before, looks at the state the block started from) *)
 Lemma gate_in_block f bs pre src dst :
-  d_cache_failed_events f = false -> d_cache_deferred f = false ->
+  d_cache_failed_events f = false -> key_inj (d_cache_key f) -> d_cache_deferred f = false ->
   let s0 := run_ops f st0 (List.concat bs) in
   let s := run_ops f s0 pre in
   exists oc, r_out (step_at f s0 s (OIbtp src dst)) = outcome_code oc /\ gate_sound (svcs s) src dst oc = true /\
              (proof_ok s0 src = true -> oc = gate (fun i => sget i (svcs s)) src dst).
 Proof.
-  intros Hf Hd s0 s.
-  assert (Hc : cache_ok s).
-  { subst s s0. rewrite <- run_ops_app. exact (proj1 (run_ops_keeps f _ st0 Hf (proj1 st0_ok) (proj2 st0_ok))). }
-  exists (if negb (proof_ok s0 src) then OProof else gate (view (cache s) (svcs s)) src dst). split; [|split].
+  intros Hf Hk Hd s0 s.
+  assert (Hc : cache_ok f s).
+  { subst s s0. rewrite <- run_ops_app. exact (proj1 (run_ops_keeps f _ st0 Hf Hk (proj1 (st0_ok f)) (proj2 (st0_ok f)))). }
+  exists (if negb (proof_ok s0 src) then OProof else gate (view (d_cache_key f) (cache s) (svcs s)) src dst). split; [|split].
   - cbn [step_at r_out]. rewrite Hd. reflexivity.
   - destruct (negb (proof_ok s0 src)); [reflexivity|].
-    rewrite (gate_ext _ (fun i => sget i (svcs s)) src dst (view_ok s src Hc) (view_ok s dst Hc)).
+    rewrite (gate_ext _ (fun i => sget i (svcs s)) src dst (view_ok f s src Hc) (view_ok f s dst Hc)).
     apply gate_sound_gate.
   - intro Hp. rewrite Hp. cbn [negb].
-    apply (gate_ext _ (fun i => sget i (svcs s)) src dst (view_ok s src Hc) (view_ok s dst Hc)).
+    apply (gate_ext _ (fun i => sget i (svcs s)) src dst (view_ok f s src Hc) (view_ok f s dst Hc)).
 Qed.
+
+(** the result string of Manage: a freeze proposal of service 10 is pending, its logout is submitted and locks it,
+    the appchain is frozen with approval, the logout is rejected - governance restores the freeze proposal and passes
+    "freeze", not "reject".  The manager re-pauses the service for every result but "approve"; were the follow-up
+    run for "reject" only, the service would stay usable on the frozen appchain *)
+Definition h_restored : list op :=
+  (setup ++ [OSvcOp 1 10 []; OSvcOp 3 10 []; OChainOp 1 1; OConclude 0 true; OConclude 0 false; OIbtp 10 20])%list.
+
+Lemma restored_refuted : P_b h_restored (model_trace cfg_reject_only h_restored) = false.
+Proof. vm_compute. reflexivity. Qed.
+Lemma restored_fixed : P_b h_restored (model_trace (cfg_of_bits false true false) h_restored) = true.
+Proof. vm_compute. reflexivity. Qed.
+Lemma restored_outcomes :
+  let last_of f := last (model_trace f h_restored) obs0 in
+  (map (fun e => (fst e, sv_status (snd e))) (ob_svcs (last_of cfg_reject_only)), ob_out (last_of cfg_reject_only),
+   map (fun e => (fst e, sv_status (snd e))) (ob_svcs (last_of (cfg_of_bits false true false))), ob_out (last_of (cfg_of_bits false true false)))
+  = ([(10, St_Freezing); (20, St_Available)], 0, [(10, St_Pause); (20, St_Available)], 2)%N.
+Proof. vm_compute. reflexivity. Qed.
+
+(** a cache keyed by the case-folded id (ids 28 and 29 under one key): with only 28 registered, a request to the
+    unregistered 29 finds 28's cached record and is recorded BEGIN; with both registered and 28 frozen, an event of
+    29 overwrites the shared entry and 28 is usable again; a restarted node (empty cache) answers by the store *)
+Definition h_folded : list op := (setup ++ [ORegSvc 2 28 []; OConclude 0 true; OIbtp 10 29])%list.
+Definition h_folded2 : list op :=
+  (setup ++ [ORegSvc 2 28 []; OConclude 0 true; ORegSvc 2 29 []; OConclude 0 true; OSvcOp 1 28 []; OConclude 0 true;
+             OIbtp 10 28; OSvcBlack 29 []; OIbtp 10 28])%list.
+Definition cfg_code_folded : cfg := cfg_folded (cfg_of_bits false true false).
+
+Lemma folded_refuted : P_b h_folded (model_trace cfg_code_folded h_folded) = false.
+Proof. vm_compute. reflexivity. Qed.
+Lemma folded_fixed : P_b h_folded (model_trace (cfg_of_bits false true false) h_folded) = true.
+Proof. vm_compute. reflexivity. Qed.
+Lemma folded2_refuted : P_b h_folded2 (model_trace cfg_code_folded h_folded2) = false.
+Proof. vm_compute. reflexivity. Qed.
+Lemma folded2_fixed : P_b h_folded2 (model_trace (cfg_of_bits false true false) h_folded2) = true.
+Proof. vm_compute. reflexivity. Qed.
+Lemma folded_outcomes :
+  (map r_out (skipn 10 (trace cfg_code_folded st0 (h_folded ++ [ORestart; OIbtp 10 29]))),
+   map r_out (skipn 14 (trace cfg_code_folded st0 h_folded2))) = ([0; 9; 1], [1; 9; 0])%N.
+Proof. vm_compute. reflexivity. Qed.
 
 (** a cache that takes the records only at the end of the block lets a request through that follows, in the same
     block, the approval of the freeze of its destination *)
